@@ -169,6 +169,8 @@ impl<T> Rk<T> {
         match self {
             Rk::Ok(_) => None,
             Rk::Fail(m) => Some(Expect::Exact(m.clone())),
+            // no hook installed: catch_panic has no payload to report, only its fixed text (`(msg unknown)`)
+            Rk::Panic(m) if m.as_slice() == b"<unknown>" => None,
             Rk::Panic(m) => Some(Expect::Contains(m.clone())),
         }
     }
@@ -1047,8 +1049,45 @@ fn run_cstring(ops: Vec<Sexp>) -> Option<Sexp> {
     .ok()?
 }
 
-pub fn run(head: &str, args: &[Sexp]) -> Option<Sexp> {
+/// `wfh --c20-nohook` (one case line on stdin): the history in a process in which nobody has installed the
+/// panic catcher's hook, unless the history itself does.
+pub fn nohook_main() -> ! {
+    std::panic::set_hook(Box::new(|_| {}));
+    let mut line = String::new();
+    let _ = std::io::stdin().read_line(&mut line);
+    let ans = (|| {
+        let case = crate::sexp::parse(line.trim_end())?;
+        let l = case.as_list()?;
+        let calls = l.get(1..)?.to_vec();
+        fresh_thread(move || thread_main(calls, None)).join().ok()?.map(obs)
+    })();
+    println!("{}", ans.unwrap_or_else(|| Sexp::list(vec![Sexp::sym("bad-case")])).to_line());
+    std::process::exit(0);
+}
+
+/// Runs the case in a child process (`--c20-nohook`) and relays its answer.
+fn run_nohook(case: &Sexp) -> Option<Sexp> {
+    use std::io::Write;
+    use std::process::{Command, Stdio};
+    let exe = std::env::current_exe().ok()?;
+    let mut child = Command::new(exe)
+        .arg("--c20-nohook")
+        .stdin(Stdio::piped())
+        .stdout(Stdio::piped())
+        .stderr(Stdio::null())
+        .spawn()
+        .ok()?;
+    child.stdin.take()?.write_all(format!("{}\n", case.to_line()).as_bytes()).ok()?;
+    let out = child.wait_with_output().ok()?;
+    if !out.status.success() {
+        return Some(Sexp::tagged("child-died", vec![]));
+    }
+    crate::sexp::parse(String::from_utf8_lossy(&out.stdout).trim_end())
+}
+
+pub fn run(head: &str, args: &[Sexp], case: &Sexp) -> Option<Sexp> {
     match (head, args) {
+        ("ffi-history-nohook", _) => run_nohook(case),
         ("ffi-history", calls) => run_single(calls.to_vec()),
         ("ffi-2threads", [pa, pb, s]) => {
             let sched = s
